@@ -55,6 +55,12 @@ class ConcreteCtx:
             raise InvalidScenario(f"{name}={v} outside [{lo},{hi}]")
         return v
 
+    def concretize(self, x, lo, hi):
+        v = int(x)
+        if not lo <= v <= hi:
+            raise InvalidScenario(f"value {v} outside [{lo},{hi}]")
+        return v
+
     def boolean(self, name):
         v = self._get(name)
         if isinstance(v, str):
